@@ -83,6 +83,9 @@ def extract_chain(fn, vid, mode):
                 res = _result_mask(fn, e['c'][0], vid)
             if mode == 'assign' and e['k'] == 'BinaryOperator' and e['op'] == '=' and _is_var(fn, e['c'][0], vid):
                 res = _result_mask(fn, e['c'][1], vid)
+            if mode == 'assign' and e['k'] == 'CompoundAssignOperator' and e['op'] == '&=' and _is_var(fn, e['c'][0], vid):
+                m = _const(fn, e['c'][1])
+                res = m & 0xFFFFFFFF if m is not None else None
         if res is None:
             raise AnalysisBroken('%s: padding case at %s has an unknown result shape' % (fn.q, fn.loc(cond)))
         chain.append((mc[0], mc[1], res))
